@@ -14,11 +14,10 @@ PROP = dict(
          "expression, lambdas with expression and block bodies, nested lambdas, calls of functions / lambdas / imported and "
          "prefix-qualified functions, struct construction and field access, enum variants written `.V` and `E.V`, array and "
          "tuple literals, indexing; every import form; variable names drawn from a pool of nine, one of which is also an "
-         "imported function's name, so shadowing is the rule; non-ASCII string literals and comments once ranges are byte "
-         "ranges (adaptive probe, D12), task blocks once the searches answer inside them (adaptive probe, D45)). Per file: "
+         "imported function's name, so shadowing is the rule; non-ASCII string literals and comments, task blocks; the D12 / D45 / D60 probe programs are hard regression inputs). Per file: "
          "two model cases (identifier search, innermost-node search) covering EVERY byte offset 0..=len+2, one case claiming "
          "the hypotheses of the identifier-search theorem for the parsed file (decided by the proven-sound executable check "
-         "wfB in the model; the hover-search nesting check only once D60 is repaired, adaptive probe); spec checks at "
+         "wfB in the model; and the hover-search nesting check); spec checks at "
          "every byte offset: definition_at on a use = the generator's innermost visible declaration (file, range, text), "
          "definition_at outside identifiers = nothing, type_at on every typed position = the generator's type. "
          "distinct = distinct (file tree, search); non-trivial = the answer names at least one node",
